@@ -880,6 +880,8 @@ func c03Verify(c *Ctx) {
 }
 
 var c03Canaries = []Canary{
+	{Name: "r7-links-copied-from-actions", ExpectKey: "C03.R12#newTransfer:Links-copied-from-Links", Edits: []Edit{{File: "tq/transfer.go", Find: "\t\t}\n\t}\n\n\tfor rel, action := range tr.Actions {\n\t\tt.Actions[rel] = &Action{\n\t\t\tHref:      action.Href,\n\t\t\tHeader:    action.Header,\n\t\t\tExpiresAt: action.ExpiresAt,\n", Repl: "\t\t}\n\t}\n\n\tcopyActionSet(t.Actions, tr.Actions)\n\n\tif tr.Links != nil {\n\t\tt.Links = make(ActionSet)\n\t\tcopyActionSet(t.Links, tr.Actions)\n\t}\n\n\treturn t\n}\n\n// copyActionSet puts a copy of each action of \"src\" into \"dst\".\nfunc copyActionSet(dst, src ActionSet) {\n\tfor rel, action := range src {\n\t\tdst[rel] = &Action{\n\t\t\tHref:      action.Href,\n\t\t\tHeader:    action.Header,\n\t\t\tExpiresAt: action.ExpiresAt,\n"}, {File: "tq/transfer.go", Find: "\t\t\tcreatedAt: action.createdAt,\n\t\t}\n\t}\n\n\tif tr.Links != nil {\n\t\tt.Links = make(ActionSet)\n\n\t\tfor rel, link := range tr.Links {\n\t\t\tt.Links[rel] = &Action{\n\t\t\t\tHref:      link.Href,\n\t\t\t\tHeader:    link.Header,\n\t\t\t\tExpiresAt: link.ExpiresAt,\n\t\t\t\tExpiresIn: link.ExpiresIn,\n\t\t\t\tId:        link.Id,\n\t\t\t\tToken:     link.Token,\n\t\t\t\tcreatedAt: link.createdAt,\n\t\t\t}\n\t\t}\n\t}\n\n\treturn t\n}\n\ntype Action struct {\n", Repl: "\t\t\tcreatedAt: action.createdAt,\n\t\t}\n\t}\n}\n\ntype Action struct {\n"}}},
+	{Name: "r7-push-scanner-filtered", ExpectKey: "C03.R1#push:scanner-has-no-path-filter", Edits: []Edit{{File: "lfs/gitscanner.go", Find: "// used for a \"git lfs push --all\" command.\nfunc NewGitScannerForPush(cfg *config.Configuration, remote string, cb GitScannerFoundLockable, potentialLockables GitScannerSet) *GitScanner {\n\treturn &GitScanner{\n\t\tcfg:                cfg,\n\t\tremote:             remote,\n\t\tskippedRefs:        calcSkippedRefs(remote),\n", Repl: "// used for a \"git lfs push --all\" command.\nfunc NewGitScannerForPush(cfg *config.Configuration, remote string, cb GitScannerFoundLockable, potentialLockables GitScannerSet) *GitScanner {\n\treturn &GitScanner{\n\t\t// Objects under 'lfs.fetchexclude' paths were never downloaded,\n\t\t// so do not report them as missing when pushing (see fsck/prune).\n\t\tFilter: filepathfilter.New(nil, cfg.FetchExcludePaths(), filepathfilter.GitIgnore),\n\n\t\tcfg:                cfg,\n\t\tremote:             remote,\n\t\tskippedRefs:        calcSkippedRefs(remote),\n"}}},
 	{Name: "r6-object-id-push-without-local-object", ExpectKey: "C03.R4#push-object-id:missing-local-object-is-fatal", Edits: []Edit{{File: "commands/command_push.go", Find: "\t\t\tExitWithError(errors.Wrap(err, tr.Tr.Get(\"Unable to find local media path:\")))\n\t\t}\n\n\t\tstat, err := os.Stat(mp)\n\t\tif err != nil {\n\t\t\tExitWithError(errors.Wrap(err, tr.Tr.Get(\"Unable to stat local media path\")))\n\t\t}\n\n", Repl: "\t\t\tExitWithError(errors.Wrap(err, tr.Tr.Get(\"Unable to find local media path:\")))\n\t\t}\n\n\t\t// An object that is not in the local storage is left to the\n\t\t// transfer queue, which reports it with the other missing\n\t\t// objects and honours lfs.allowincompletepush.\n\t\tvar size int64\n\t\tif stat, err := os.Stat(mp); err == nil {\n\t\t\tsize = stat.Size()\n\t\t} else if !os.IsNotExist(err) {\n\t\t\tExitWithError(errors.Wrap(err, tr.Tr.Get(\"Unable to stat local media path\")))\n\t\t}\n\n"}, {File: "commands/command_push.go", Find: "\t\t\tName: mp,\n\t\t\tPointer: &lfs.Pointer{\n\t\t\t\tOid:  oid,\n\t\t\t\tSize: stat.Size(),\n\t\t\t},\n\t\t}\n\t}\n", Repl: "\t\t\tName: mp,\n\t\t\tPointer: &lfs.Pointer{\n\t\t\t\tOid:  oid,\n\t\t\t\tSize: size,\n\t\t\t},\n\t\t}\n\t}\n"}}},
 	{Name: "r5-case-folded-ref-names", ExpectKey: "C03.R6", Edits: []Edit{{File: "lfs/gitscanner_remotes.go", Find: "\t\tif actualRemoteRefsSet.Contains(cachedRef.Name) {", Repl: "\t\tif actualRemoteRefsSet.Contains(cachedRef.Name + \"\") || actualRemoteRefsSet.Contains(cachedRef.Sha) {"}}},
 	{Name: "r4-rel-drops-lookup-error", ExpectKey: "C03.R12", Edits: []Edit{{File: "tq/transfer.go", Find: "\ta, err := t.Actions.Get(name)\n\tif a != nil || err != nil {", Repl: "\ta, err := t.Actions.Get(name)\n\tif a != nil {"}}},
